@@ -7,7 +7,8 @@
 //     every index expression, every channel send with its kind (bare / select+default /
 //     select+timeout), every PostEvent/PostEventBlocking call with its argument;
 //   - parseMouseEvent: the operator of the first guard, index expressions, bit-mask constants;
-//   - channel capacities in New() and the default event-queue size.
+//   - channel capacities in New() and the default event-queue size;
+//   - CursorPosition(): its top-level statements (drain, flag, query, timer, select).
 package main
 
 import (
@@ -223,6 +224,17 @@ func gen(c *ex.Ctx) {
 		c.Fail("sequences.go: colorThemeResp not a literal")
 		return
 	}
+	// 5. CursorPosition: the requester side of the chCursorPos hand-off, statement by statement
+	cp := ex.FindFunc(f, "Vaxis", "CursorPosition")
+	if cp == nil {
+		c.Fail("vaxis.go: CursorPosition not found")
+		return
+	}
+	var cps []string
+	for _, st := range cp.Body.List {
+		cps = append(cps, ex.LeanStr(oneLine(c.Src(st))))
+	}
+	fmt.Fprintf(&sb, "\n/-- CursorPosition(): top-level statements in source order. -/\ndef cp_stmts : List String := [\n  %s\n]\n", strings.Join(cps, ",\n  "))
 	sb.WriteString("\nend VaxisModel.Gen.Caps\n")
 	c.Write("Caps.lean", sb.String())
 }
